@@ -485,7 +485,7 @@ theorem SInv.corrupt_restart {cfg : Cfg} (G : Good cfg) {s : State n} (h : SInv 
       pl cfg.pageSize 0 (maxClock s.disk.txs / cfg.pageSize + 1) (upd (xorSpec cfg s) p v) := by
     rw [hx.sync.shelf_eq, putSorted_pl G.pos _ _ _ 0 _ (Nat.zero_le _) (by omega)]
     congr 1; omega
-  refine ⟨⟨⟨h.g.idx, h.g.closed, h.g.count, h.g.lc, h.g.head, h.g.nodup, h.g.keys⟩, h.lc, hne, ?_, ?_⟩, rfl⟩
+  refine ⟨⟨⟨h.g.idx, h.g.closed, h.g.count, h.g.lc, h.g.head, h.g.nodup, h.g.keys⟩, rfl, hne, ?_, ?_⟩, rfl⟩
   · show Sync xorOps cfg.pageSize (Tree.load xorOps cfg.loadEmptyResets (Tree.new xorOps cfg.pageSize)
         (putSorted (keyOf cfg.pageSize p) v s.disk.xorLeaves)) (putSorted (keyOf cfg.pageSize p) v s.disk.xorLeaves) _ _
     rw [hshelf]
